@@ -89,7 +89,7 @@ Definition clause_cap (d : list (string * dval)) (o : op) (x : obs) : N :=
   match o, x with
   | OpToken g _, Out (OErr EUnsupportedGrantType) =>
       if mem (grant_name g) (obs_set d "grant_types_supported") then
-        (match g with GImplicit | GJwtBearer => 0 | _ => 4 end) else 0
+        (match g with GImplicit => 0 | _ => 4 end) else 0
   | OpToken g _, _ => if andb (obs_obtains x) (negb (mem (grant_name g) (obs_set d "grant_types_supported"))) then 3 else 0
   | OpPar _, Out (OErr EOther) => if obs_has d "pushed_authorization_request_endpoint" then 4 else 0
   | OpPar _, _ => if andb (obs_obtains x) (negb (obs_has d "pushed_authorization_request_endpoint")) then 3 else 0
